@@ -208,9 +208,9 @@ impl Ledger {
 
 pub fn default_static(ptype: PointType) -> StaticVal {
     // a freshly added point: value zero/false, flags RESTART (0x02), no time
-    let _ = ptype;
     StaticVal {
-        value: 0.0,
+        // double-bit points start as Indeterminate (3), everything else as 0 / false
+        value: if ptype == PointType::DoubleBit { 3.0 } else { 0.0 },
         bytes: vec![0x00],
         flags: 0x02,
         time: None,
